@@ -495,6 +495,11 @@ def curated():
     A(p.struct([('a', tr), ('o', ('opt', tr)), ('v', ('var', [string, tr]))], name='StTracked'))
     th = A(p.table([(h1, 1, True), (string, 2, True), (('vec', h0), 3, True)], name='TbHandle'))
     A(p.table([(th, 9, True), (('named', 'StHandle'), 10, True)], hash_=77, name='TbHandleNest'))
+    # handles whose type tag needs more than one byte, as the LAST thing of a table entry (bare, as the last member
+    # of a structure, in an optional, as the only element of a vector)
+    hbig = ('hnd', 70000)
+    A(p.table([(h300, 1, True), (p.struct([('n', u8), ('h', h300)], name='StTailHandle'), 2, True), (('opt', hbig), 3, True), (('vec', hbig), 4, True)],
+              hash_=78, name='TbBigTagHandles'))
     return p
 
 
